@@ -47,6 +47,12 @@ def cases(rng, tier):
         raw = "\n".join(sq[i:i + 60] for i in range(0, len(sq), 60))
         raw = "".join(c.lower() if rng.random() < 0.3 else c for c in raw)
         yield Case(["mkq %s %s" % (hex6(raw), q) for q in ("len", "seq", "countPos", "fcr")], {"kind": "boundary-length"})
+    # the string handed over TOGETHER with the other constructor arguments: a sequenceFile (of another sequence), an empty / false SeqObj -
+    # the string is what counts: normalised or rejected as if it stood alone
+    for raw in [" m k v\n", "MKVEEK", "mkx", "MK1V", "M-KV", "12345", " \t\n", "acdefghiklmnpqrstvwy", "MKV*", ">hdr\nMKV", "K"] + \
+            [gen.rand_seq(rng, "idp", rng.randint(1, 30)).lower() for _ in range(6 if tier == "quick" else 40)]:
+        for fl in ("@withfile", "@seqobj:empty", "@seqobj:false", "@seqobj:zero", "@seqobj:tuple", "@seqobj:list", "@seqobj:none", "@withfile @seqobj:empty"):
+            yield Case(["mk %s %s" % (hex6(raw), fl)] + ["mkq %s %s %s" % (hex6(raw), q, fl) for q in ("len", "fcr")], {"kind": "string-with-other-constructor-arguments"})
     for wd in gen.AMBIGUOUS_WORDS:
         yield mk(wd, {"kind": "ambiguous-word"}, analyses=True)
     # the SAME invalid character at two or three places (and two different ones)
